@@ -11,7 +11,8 @@
      addfac(c, ts, n, desc, flaw, async, fid, r, evs)
      get(c, t, n, api, opt, r, vid, evs)           r: val | None | ResourceNotFound | AsyncResourceError | RuntimeError | other
      getall(c, t, found)   outside(reason)
-     cadd(n, isdefault, starting, defname, desc, fac, cb, r, delegated, in = [n, desc, r, fac, cb])   a ComponentContext's add call and the
+     cadd(ts, ints, n, isdefault, starting, defname, desc, fac, cb, r, delegated, in = [n, desc, r, fac, cb])   (ts / ints: the types of a
+                                                   factory as the component declared them - explicitly or by return annotation - and as the context registered them)   a ComponentContext's add call and the
                                                    context-level call it delegated to (recorded within it)
      csvc(func, name, action, r, delegated, in = [func, name, action, r])   the same for ComponentContext.start_service_task
      cget(c, t, n, api, opt, r, vid)               what a lookup through a ComponentContext (a view of context c) finally gave its caller
@@ -161,6 +162,7 @@ StepCAdd ==
            ELSE IF ~E.delegated THEN (IF E.r = "ok" THEN "C14:component-context-did-not-delegate-the-registration" ELSE "")
            ELSE IF E.in.fac # E.fac THEN "C14:component-context-delegated-to-the-wrong-operation"
            ELSE IF E.in.n # (IF E.isdefault /\ E.starting THEN E.defname ELSE E.n) THEN "C14:resource-name-given-to-the-context-is-not-what-the-alias-rule-says"
+           ELSE IF E.fac /\ ToSet(E.ints) # ToSet(E.ts) THEN "C02,C06:factory-registered-under-other-types-than-the-component-declared"
            ELSE IF E.in.desc # E.desc THEN "C18:description-lost-between-the-component-and-the-context"
            ELSE IF E.in.cb # E.cb THEN "C01:teardown-callback-lost-between-the-component-and-the-context"
            ELSE IF E.in.r # E.r THEN "C03,C18:outcome-of-the-delegated-registration-not-passed-on"
